@@ -228,6 +228,18 @@ func (c *checker) scope(spec *ukit.Spec) {
 			c.compareBehaviour(spec, sch, rebuilt, v.Name)
 		})
 	}
+	// Loaded through the meta-schema directly (no constructor, no convenience wrapper): first use of all lazy state.
+	c.res.Evaluations++
+	c.guard("load via DescribeScope().Unserialize", func() {
+		l, err := schema.DescribeScope().Unserialize(ukit.DeepCopy(d))
+		if err != nil {
+			c.fail("the SDK rejects its own self-description (DescribeScope().Unserialize)", err.Error())
+			return
+		}
+		ls := l.(*schema.ScopeSchema)
+		ls.ApplySelf()
+		c.compareBehaviour(spec, sch, ls, "DescribeScope().Unserialize + ApplySelf")
+	})
 	// The same scope as the input, an output, a signal handler and a signal emitter of a one-step plugin, carried by
 	// a real hello message: this is where the description is nested deepest and where the client's own decoder
 	// settings apply.
@@ -434,7 +446,7 @@ func main() {
 			}
 			return res.Findings
 		},
-		Rule: "every spec of U_2 wrapped as a scope (all kinds, units, enums with display names, defaults, presence rules, disabled properties, nested scopes, recursive references) plus a display/unenforced-id scope: d = SelfSerialize; for each of {direct, CBOR round trip, YAML round trip}: rebuilt = UnserializeScope(d'), d2 = rebuilt.SelfSerialize must equal d, and rebuilt must agree with the original on accept/reject, unserialized value (map-based schemas) and serialized form for every raw value of V(spec); every one of those scopes also as input, output, signal handler and signal emitter of a one-step plugin rebuilt from a real hello message by Client.ReadSchema (description fixed point, behaviour of the input); 3 whole plugin schemas (1-2 steps, several outputs, signal handlers and emitters with recursive and one-of scopes) rebuilt through UnserializeSchema and through a real hello message read by Client.ReadSchema, with the same comparison for every input, output and signal data scope; non-trivial = schemas that described themselves",
+		Rule: "every spec of U_2 wrapped as a scope (all kinds, units, enums with display names, defaults, presence rules, disabled properties, nested scopes, recursive references) plus a display/unenforced-id scope: d = SelfSerialize; for each of {direct, CBOR round trip, YAML round trip}: rebuilt = UnserializeScope(d') (plus DescribeScope().Unserialize + ApplySelf for the behaviour comparison), d2 = rebuilt.SelfSerialize must equal d, and rebuilt must agree with the original on accept/reject, unserialized value (map-based schemas) and serialized form for every raw value of V(spec); every one of those scopes also as input, output, signal handler and signal emitter of a one-step plugin rebuilt from a real hello message by Client.ReadSchema (description fixed point, behaviour of the input); 3 whole plugin schemas (1-2 steps, several outputs, signal handlers and emitters with recursive and one-of scopes) rebuilt through UnserializeSchema and through a real hello message read by Client.ReadSchema, with the same comparison for every input, output and signal data scope; non-trivial = schemas that described themselves",
 		Assumptions: []string{
 			"descriptions are compared after CBOR normalisation (dynamic Go types of numbers and maps differ by transport)",
 			"schemas referring to foreign namespaces are excluded (they cannot be linked from their own description alone)",
